@@ -8,7 +8,7 @@ META = dict(
               "histories and on an exhaustive enumeration of small multigraphs, with a direct shortest-path oracle on the implementation's answers",
     level_text="Machine-checked theorems (coq/Props/C17.v, all FULL, closed under the global context, for every revision) about the model of PathSearch + PathHandler "
                "(coq/theories/Search.v path_loop/path_search) for every database whose slot graph satisfies the explicit adjacency hypothesis adj_ok "
-               "(coq/theories/AdjOk.v; decidable checker proved sound; to be discharged from the graph invariant of C08) and for DISTANCE-INDEPENDENT condition lists "
+               "(coq/theories/AdjOk.v; decidable checker proved sound; discharged from the graph invariant wf, which holds after every history of graph operations from the empty graph: C17_path_search_wf with C14_wf_adj_ok / GraphSpec.grun_wf) and for DISTANCE-INDEPENDENT condition lists "
                "(dist_free: no distance condition and no beyond modifier at any depth; C17_dist_free proves the evaluation then ignores the distance argument, so every "
                "element has one cost: 1 if it passes the conditions, 2 if not, unusable if the conditions stop there - C17_ecost): C17_sound (a non-empty internal "
                "result is an alternating node/edge path from origin to destination following edge direction, every element after the origin usable, flags = "
@@ -59,8 +59,9 @@ def run(ctx):
              "non-trivial = history that reached a state with >= 2 nodes and an edge"
              % (r["histories"], PROFILE, steps, nodes, edges, scope, s["histories"]),
         failures=failures, disagreements=m["disagreements"],
-        assumptions=["the theorems are stated under the explicit hypothesis adj_ok (gr d) about the slot graph (coq/theories/AdjOk.v), decidable (adj_okb, proved "
-                     "sound), shown for graphs built with the real operations, to be discharged for all reachable states from the graph invariant proved for C08",
+        assumptions=["the theorems are stated for graphs satisfying adj_ok (coq/theories/AdjOk.v) resp. the graph invariant wf (C17_path_search_wf), which holds for "
+                     "every graph produced by a history of the four graph operations from the empty graph; that DbImpl's query layer only performs such "
+                     "operations is part of the model correspondence, not a separate theorem",
                      "minimality is proved for distance-independent condition lists (dist_free); for conditions that read the distance the code's cost is "
                      "path-dependent (witness C17_distance_dependent) and only soundness (C17_sound_any_conditions) is proved",
                      "the direct oracle decides minimality only for path searches without conditions (all costs 1); minimal cost under conditions and "
